@@ -17,7 +17,7 @@
    of every rune a Go string yields). *)
 From Coq Require Import List NArith ZArith Permutation.
 From Dials Require Import Base.Outcome Base.Runes Text.ParseInt Text.Quote Text.Split
-  Text.FlagHelpers Text.ParseString Text.ParseFloat Text.IntGrammar Text.ParseIntProofs Text.IntGrammarProofs Text.QuoteProofs Text.SplitProofs.
+  Text.FlagHelpers Text.ParseString Text.ParseFloat Text.IntGrammar Text.ParseDuration Text.ParseIntProofs Text.IntGrammarProofs Text.DurationProofs Text.QuoteProofs Text.SplitProofs.
 Import ListNotations.
 Open Scope N_scope.
 
@@ -152,6 +152,23 @@ Proof. exact mss_roundtrip_l. Qed.
 Theorem bool_roundtrip : forall b, parse_bool (format_bool b) = Ok b.
 Proof. exact bool_roundtrip_l. Qed.
 
+(* ---- durations (time.ParseDuration behind parse.String at time.Duration).
+   dur_spec s is the unbounded sum of the terms of s (DVal sign total), DBig when a
+   single term already exceeds 2^63 ns, DSyntax when s is no duration text.  Below
+   2^64 ns the parser returns exactly that sum when it lies in the int64 range and an
+   error otherwise - it never wraps.  The guard total < 2^64 is part of the statement:
+   at 2^64 the uint64 accumulator of the Go standard library does wrap
+   (DurationProofs.duration_wraps_refuted; known finding C15/4).  Fractions use
+   the exact quotient of Text/ParseDuration.v (see there for the float64 step). ---- *)
+Theorem duration_never_wraps : forall s,
+  match dur_spec s with
+  | DVal neg t => t < two64 ->
+      if neg then (if t <=? two63 then parse_duration s = Ok (- Z.of_N t)%Z else exists c, parse_duration s = Err c)
+      else (if t <=? two63 - 1 then parse_duration s = Ok (Z.of_N t) else exists c, parse_duration s = Err c)
+  | _ => exists c, parse_duration s = Err c
+  end.
+Proof. exact duration_never_wraps_l. Qed.
+
 (* ---- floats: given strconv's print/parse round trip ---- *)
 Theorem float_roundtrip_given_strconv :
   forall (F64 F32 : Type) (parse_float : N -> str -> outcome F64) (overflow32 : F64 -> bool)
@@ -186,5 +203,6 @@ Print Assumptions slice_roundtrip.
 Print Assumptions set_roundtrip.
 Print Assumptions map_roundtrip.
 Print Assumptions mss_roundtrip.
+Print Assumptions duration_never_wraps.
 Print Assumptions bool_roundtrip.
 Print Assumptions float_roundtrip_given_strconv.
